@@ -1,6 +1,6 @@
 #!/bin/sh
 # usage: selftest/try_patch.sh <patch.diff> <tier> <Cxx> [<Cyy> ...]  -- apply a seeded change to /repo, run the checks, undo it
-patch=$1; tier=$2; shift 2
+patch=$(realpath $1); tier=$2; shift 2
 cd /verif || exit 2
 git -C /repo diff --quiet || { echo "/repo is dirty; refusing"; exit 2; }
 git -C /repo apply "$patch" || { echo "patch does not apply"; exit 2; }
